@@ -360,6 +360,36 @@ def r6_omittable(repo):
         for f in c.methods.values() for n in iter_own_nodes(f.node)))
     with_omit = sorted(c.name for c in repo.classes.values() if c.module is m and "omit_type" in c.methods)
     decls = [x for x in with_inf if x.endswith("Declaration")]
+    # a function whose body is a block or a call of a same-named function keeps its return type: the compiler cannot
+    # infer a return type through the function's own (possibly inherited / overloaded) name.  The test is by name and
+    # conservative; consulting anything else of the call (its receiver) narrows it.
+    tda = repo.cls(TDA + ".TypeDependencyAnalysis")
+    vf = tda.methods["visit_func_decl"]
+    hd = [c for c in calls_in(vf.node) if call_name(c) == "_handle_declaration" and
+          any(const_value(a) == "ret_type" for a in c.args)]
+    okr, whyr = False, "no _handle_declaration(..., 'ret_type') in visit_func_decl"
+    if len(hd) == 1:
+        gs = [(" ".join(src(t).split()), p) for t, p in flat_guards(hd[0])]
+        nd = vf.params[1]
+        okr = ("isinstance(%s.body, ast.Block)" % nd, False) in gs and \
+            ("_is_recursive_call(%s.name, %s.body)" % (nd, nd), False) in gs
+        whyr = "guards of the return-type declaration node: %s" % gs
+    obs.append(Ob("C03-R6", "visit_func_decl:return-type-omittable-only-for-non-recursive-expression-bodies", _w(vf), okr,
+                  "the virtual declaration for the return type may be created only when the body is neither a block nor "
+                  "a recursive call: " + whyr))
+    rc = repo.fn(TDA + "._is_recursive_call")
+    nm, body = rc.params[:2]
+    reads = sorted({n.attr for n in ast.walk(rc.node) if isinstance(n, ast.Attribute) and src(n.value) == body})
+    pos = [r for r in iter_own_nodes(rc.node) if isinstance(r, ast.Return) and const_value(r.value, 1) is not False]
+    okc = reads == ["func"] and len(pos) == 1 and isinstance(pos[0].value, ast.Compare) and \
+        {src(pos[0].value.left), src(pos[0].value.comparators[0])} == {nm, body + ".func"} and \
+        isinstance(pos[0].value.ops[0], ast.Eq) and \
+        [(" ".join(src(t).split()), p) for t, p in flat_guards(pos[0]) if "isinstance" in src(t)] == \
+        [("isinstance(%s, ast.FunctionCall)" % body, True)]
+    obs.append(Ob("C03-R6", "_is_recursive_call:by-name-only", _w(rc), okc,
+                  "a call body is recursive iff it calls a function of the same name (`%s == %s.func`), whatever its "
+                  "receiver; attributes of the body consulted: %s, positive answers: %s"
+                  % (nm, body, reads, [src(r.value) for r in pos])))
     obs.append(Ob("C03-R6", "inferred_type-declarations=omit_type-classes", "src/ir/ast.py",
                   decls == with_omit == ["FunctionDeclaration", "VariableDeclaration"],
                   "declaration classes with an inferred_type attribute: %s; classes with omit_type: %s "
